@@ -62,6 +62,16 @@ theorem hstrp_wrap (ver sn : Nat) (t : PktType) (os : Opts) (pl : Option Pdu) (h
     simp only [Option.map, Hstrp.asBytes, hb', bind, Except.bind, pure, Except.pure]
     exact h1'
 
+/-- `Consistent` cannot be dropped: option bit set, no options, a payload — the datagram the library's
+own `rrs_confirm` builds (`32420020<sn>1100800009…`).  The parser reads the RRS service octet `0x11` as
+option type 17 and raises `ValueError`; kernel-checked on the registration answer of test_rrs.py -/
+theorem hstrp_inconsistent_witness :
+    let t : PktType := ⟨true, false, false, false, false, false⟩
+    let p : Pdu := .rrs ⟨false, rrsRadioRegistrationAnswer, ⟨10, 80⟩, rrsResultSuccess, 3600, rrsStateOnline⟩
+    p.WF ∧ ¬ Consistent t [] (some p)
+      ∧ (Hstrp.asBytes ⟨0, t, 1, [], some p⟩ >>= Hstrp.fromBytes) = .error .value := by
+  refine ⟨by decide, by decide, by decide +kernel⟩
+
 /-! ## non-vacuity -/
 
 /-- the captured registration `32420020000183040001869f04010211000300040a000064bd03` (test_hstrp):
